@@ -52,6 +52,7 @@ EXC_TYPES = {
     "Custom": lambda m: type("HandlerBoom", (Exception,), {})(m),
     "LookupError": lambda m: LookupError(m),
     "CancelledError": lambda m: asyncio.CancelledError(m),
+    "TimeoutError": lambda m: asyncio.TimeoutError(m),
 }
 
 
